@@ -122,4 +122,89 @@ fn c12_decimal_arith__precision_respected__nat() {
     run_grid(true);
 }
 
+// DECIMAL (op) INTEGER and INTEGER (op) DECIMAL: the binder casts the integer operand; the value of the expression must
+// still be the exact mathematical result (or the statement fails).  Same path as above (expr::arith + ConstFold), grid:
+// DECIMAL(p, s) from grid() with boundary values x INT32 in {0, 1, -1, 3, 10, 1000, -7} x {+, -, *} x both operand orders.
+#[test]
+fn c12_decimal_int_arith__exact__nat() {
+    use crate::arrays::scalar::ScalarValue;
+    let ints = [0i32, 1, -1, 3, 10, 1000, -7];
+    let mut checked = 0usize;
+    let mut ok_results = 0usize;
+    for (p1, s1) in grid() {
+        for v1 in values(p1) {
+            let d = Decimal64Scalar { precision: p1, scale: s1, value: v1 };
+            for &i in &ints {
+                for (op, name) in [(ArithOperator::Add, "+"), (ArithOperator::Sub, "-"), (ArithOperator::Mul, "*")] {
+                    for dec_left in [true, false] {
+                        let got = std::panic::catch_unwind(|| -> std::result::Result<(u8, i8, i128), String> {
+                            let (l, r): (Expression, Expression) = if dec_left {
+                                (crate::expr::lit(d).into(), crate::expr::lit(ScalarValue::Int32(i)).into())
+                            } else {
+                                (crate::expr::lit(ScalarValue::Int32(i)).into(), crate::expr::lit(d).into())
+                            };
+                            let expr: Expression = crate::expr::arith(op, l, r).map_err(|e| e.to_string())?.into();
+                            // the type the binder announces to every parent expression / operator
+                            let announced = expr.datatype().map_err(|e| e.to_string())?;
+                            let folded = ConstFold::rewrite(expr).map_err(|e| e.to_string())?;
+                            let (p, s, v) = match folded {
+                                Expression::Literal(lit) => match lit.0 {
+                                    BorrowedScalarValue::Decimal64(d) => (d.precision, d.scale, d.value as i128),
+                                    BorrowedScalarValue::Decimal128(d) => (d.precision, d.scale, d.value),
+                                    other => return Err(format!("not a decimal: {other}")),
+                                },
+                                _ => return Err("not folded".to_string()),
+                            };
+                            let meta = announced.try_get_decimal_type_meta().map_err(|e| e.to_string())?;
+                            assert!(
+                                meta.precision == p && meta.scale == s,
+                                "{}: the value is produced as DECIMAL({p},{s}) but the expression announces DECIMAL({},{})",
+                                if dec_left { "decimal (op) int" } else { "int (op) decimal" },
+                                meta.precision,
+                                meta.scale
+                            );
+                            Ok((p, s, v))
+                        });
+                        let got = match got {
+                            Ok(g) => g,
+                            Err(e) => {
+                                // overflow traps belong to the precision / overflow obligation; assertion failures do not
+                                if let Some(m) = e.downcast_ref::<String>() {
+                                    if m.contains("announces") {
+                                        panic!("{v1}e-{s1}::decimal({p1},{s1}) {name} {i}::int: {m}");
+                                    }
+                                }
+                                continue;
+                            }
+                        };
+                        checked += 1;
+                        if let Ok((p, s, val)) = got {
+                            let what = if dec_left {
+                                format!("{v1}e-{s1}::decimal({p1},{s1}) {name} {i}::int = {val}e-{s}::decimal({p},{s})")
+                            } else {
+                                format!("{i}::int {name} {v1}e-{s1}::decimal({p1},{s1}) = {val}e-{s}::decimal({p},{s})")
+                            };
+                            assert!(s >= 0 && (s as u8) <= p, "{what}: illegal result type");
+                            // exact value scaled by 10^s1:  a / 10^s1 (op) i
+                            let a = v1 as i128;
+                            let b = i as i128 * pow10(s1 as u32);
+                            let (exact_num, exact_scale) = match op {
+                                ArithOperator::Add => (a + b, s1 as u32),
+                                ArithOperator::Sub => (if dec_left { a - b } else { b - a }, s1 as u32),
+                                _ => (a * i as i128, s1 as u32),
+                            };
+                            // val / 10^s == exact_num / 10^exact_scale
+                            if let (Some(x), Some(y)) = (val.checked_mul(pow10(exact_scale)), exact_num.checked_mul(pow10(s as u32))) {
+                                assert!(x == y, "{what}: not the exact mathematical result");
+                                ok_results += 1;
+                            }
+                        }
+                    }
+                }
+            }
+        }
+    }
+    assert!(checked > 5_000 && ok_results > 2_000, "checked {checked}, exact results {ok_results}");
+}
+
 include!("/verif/build/kani-gen/const_fold.playback.rs");
